@@ -69,6 +69,7 @@ def run(idx: Index, rep: Report, tier: str):
     check_redundant_gate_cancellation(idx, rep)
     check_gate_equality(idx, rep, sets)
     check_pass_semantics(idx, rep, tier)
+    check_clifford_angles(idx, rep)
     rep.stats.update({"alias_" + k: v for k, v in an.stats.items()})
 
 
@@ -587,3 +588,56 @@ def check_pass_semantics(idx: Index, rep: Report, tier: str):
                    reason=f"{len(bad)} sequence(s) fail, e.g. {bad[0][0]}: {bad[0][1]}" if bad else "")
         if not bad:
             rep.floor(f"{pname}: sequences actually rewritten", changed, 5)
+
+
+# ---------------------------------------------------------------------------------------------------
+def check_clifford_angles(idx: Index, rep: Report):
+    """decompose_gate_to_cliffords folded (with the repository's own Gate class) for every rotation gate at every multiple of pi/2 from -8 to 8,
+    also slightly off within the tolerance: the product of the returned Clifford gates equals the rotation up to a phase.  This decides
+    the part the row table cannot: which row an angle - negative, beyond 2 pi - is matched to."""
+    rule = "K9.clifford-angles"
+    import math
+    from ..rules import numsem
+    from ..rules.circuitsem import make_folder, module_resolver
+    CL = "tangelo/linq/helpers/circuits/clifford_circuits.py"
+    f = idx.function(f"{CL}::decompose_gate_to_cliffords")
+    GateCls = module_resolver(idx, GATE)("Gate")
+    if GateCls is None:
+        raise AnalysisError("Gate class not resolvable")
+
+    def mk(name, target, parameter=""):
+        fo = make_folder(idx, GATE, ctors={"Gate": None})
+        fo.env["pi"] = math.pi
+        return fo.instantiate(GateCls, [name, target], {"parameter": parameter})
+    bad, n = [], 0
+    refused: List[str] = []
+    for name in ("RX", "RY", "RZ", "PHASE"):
+        for k in range(-8, 9):
+            for off in (0.0, 3e-5, -3e-5):
+                ang = k * math.pi / 2 + off
+                g = mk(name, 0, ang)
+                fo = make_folder(idx, CL, ctors={"Gate": None})
+                fo.env["pi"] = math.pi
+                try:
+                    out = fo.run_function(f.node, {"gate": g, "abs_tol": 1e-4})
+                except Undecidable as e:
+                    raise AnalysisError(f"decompose_gate_to_cliffords not foldable for {name}({ang}): {e}")
+                except Raised as e:
+                    if off == 0.0:
+                        bad.append(f"{name}({k} pi/2) raises {e.exc_type}")
+                    else:
+                        refused.append(f"{name}({k} pi/2{off:+g})")     # a near-Clifford angle may be refused (loudly); it must not be decomposed wrongly
+                    continue
+                gates = out if isinstance(out, list) else [out]
+                n += 1
+                want = numsem.circuit_unitary([make_gate([name, [0]], {"parameter": ang})], 1)
+                got = numsem.circuit_unitary([make_gate([x.fields["name"], list(x.fields["target"])], {"parameter": x.fields["parameter"]}) for x in gates], 1)
+                if numsem.distance_up_to_phase(got, want) > 1e-3:
+                    bad.append(f"{name}({k} pi/2{off:+g}) -> {[x.fields['name'] for x in gates]}")
+    rep.decide(not bad, rule, f, f.node, text=f"RX, RY, RZ, PHASE at k pi/2 for k = -8..8 (exact and within tolerance): {n} decompositions",
+               what="the Clifford gates returned for a Clifford-angle rotation implement that rotation up to a phase, for negative angles and angles beyond 2 pi too",
+               reason=f"{len(bad)} case(s) differ, e.g. {bad[:3]}")
+    if refused:
+        rep.info(rule, f, f.node, text=f"{len(refused)} near-Clifford angles refused", reason=f"angles within the tolerance of a multiple of 2 pi from below are refused (wrap-around of the "
+                 f"modulus), e.g. {refused[:3]}: loud, not wrong - reported for information")
+    rep.floor("Clifford decompositions folded", n, 150)
